@@ -45,7 +45,8 @@ Definition as_u8 (a : tattr) (m : ice_mode) : N :=
   let f := if is_bold a then N.lor f0 8 else f0 in
   let b := match m with
            | Blink => N.lor (N.land (bg a) 7) (if is_blinking a then 8 else 0)
-           | Unlimited | Ice => N.land (bg a) 15
+           | Unlimited => N.lor (N.land (bg a) 15) (if is_blinking a then 8 else 0)   (* after fix bfd7e38 *)
+           | Ice => N.land (bg a) 15
            end in
   (N.lor f (N.shiftl b 4)) mod 256.
 
